@@ -204,8 +204,7 @@ def is_real_change(p, oi, cfg):
         who = [i for i in range(n) if cosigner(i)["xfp"] == fp]
         if not who or path[: len(BASE)] != BASE or any(x >= H for x in path[len(BASE) :]):
             return False, "derivation does not belong to a cosigner xpub"
-        node = bip32ref.derive_pub(cosigner(who[0])["acct"], path[len(BASE) :])
-        if node is None or node.sec() != key:
+        if rel_sec(who[0], tuple(path[len(BASE) :])) != key:
             return False, "key is not derived from the cosigner xpub at the stated path"
         used.add(who[0])
     if len(used) != n:
@@ -245,15 +244,25 @@ def set_map(m, key, val):
         m.append((key, val))
 
 
+def move_output(p, src, dst):
+    """move output src (transaction output and its map) to index dst; every record stays consistent"""
+    for lst in (p["tx"]["outs"], p["outs"]):
+        lst.insert(dst, lst.pop(src))
+    retx(p)
+
+
 def retx(p):
     """re-serialise the (modified) unsigned tx into the global map"""
     set_map(p["global"], b"\x00", txref.ser_stripped(p["tx"]))
 
 
-def tamperings(cfg):
-    """name -> (function(p), must_raise) ; p is the reference-parsed PSBT (deep copy)."""
+def tamperings(cfg, ii=0, ci=None):
+    """name -> (function(p), must_raise) ; p is the reference-parsed PSBT (deep copy).
+    ii: index of the input the in-* tamperings act on; ci: index of the change output (default: where the builder puts it)."""
     st, m, n = cfg["stype"], cfg["m"], cfg["n"]
-    ci = change_index(cfg)
+    if ci is None:
+        ci = change_index(cfg)
+    si = 0 if ci != 0 else 1  # a spend output
     skey = b"\x00" if st == "p2sh" else b"\x01"  # output/input script key type (redeem / witness)
     in_skey = b"\x04" if st == "p2sh" else b"\x05"
     T = {}
@@ -404,17 +413,17 @@ def tamperings(cfg):
         T["out-script-under-other-key-type"] = (script_type_swapped, None)
 
     def spend_amount(p):
-        p["tx"]["outs"][0]["amount"] += 3000
+        p["tx"]["outs"][si]["amount"] += 3000
         retx(p)
 
     T["out-spend-amount-raised(benign)"] = (spend_amount, False)
 
     def utxo_amount(p):
-        im = p["ins"][0]
+        im = p["ins"][ii]
         nw, w = map_get(im, b"\x00"), map_get(im, b"\x01")
         if nw is not None:
             prev = txref.parse_tx(nw)
-            prev["outs"][p["tx"]["ins"][0]["index"]]["amount"] += 100000
+            prev["outs"][p["tx"]["ins"][ii]["index"]]["amount"] += 100000
             set_map(im, b"\x00", txref.ser_tx(prev))
         else:
             set_map(im, b"\x01", (int.from_bytes(w[:8], "little") + 100000).to_bytes(8, "little") + w[8:])
@@ -422,7 +431,7 @@ def tamperings(cfg):
     T["in-utxo-amount-altered"] = (utxo_amount, True if st == "p2sh" else None)
 
     def utxo_other_tx(p):
-        im = p["ins"][0]
+        im = p["ins"][ii]
         nw = map_get(im, b"\x00")
         if nw is not None:
             prev = txref.parse_tx(nw)
@@ -436,12 +445,12 @@ def tamperings(cfg):
 
     def in_script(p):
         other = ms_script(m, (fsecs * 2)[:n])
-        set_map(p["ins"][0], in_skey, other)
+        set_map(p["ins"][ii], in_skey, other)
 
     T["in-script-foreign"] = (in_script, True)
 
     def in_xfp(p):
-        im = p["ins"][0]
+        im = p["ins"][ii]
         for j, (k, v) in enumerate(im):
             if k[:1] == b"\x06":
                 im[j] = (k, b"\xde\xad\xbe\xef" + v[4:])
@@ -450,7 +459,7 @@ def tamperings(cfg):
     T["in-derivation-foreign-fingerprint"] = (in_xfp, True)
 
     def in_path(p):
-        im = p["ins"][0]
+        im = p["ins"][ii]
         for j, (k, v) in enumerate(im):
             if k[:1] == b"\x06":
                 im[j] = (k, v[:-4] + (9).to_bytes(4, "little"))
@@ -461,7 +470,7 @@ def tamperings(cfg):
     def in_other_child(p):
         # one derivation entry (key AND path) replaced by another valid child of the same cosigner that is
         # not in the input script
-        im = p["ins"][0]
+        im = p["ins"][ii]
         for j, (k, v) in enumerate(im):
             if k[:1] == b"\x06":
                 who = [i for i in range(n) if cosigner(i)["xfp"] == v[:4]][0]
@@ -483,7 +492,7 @@ def tamperings(cfg):
         T["out-derivation-replaced-by-other-child-of-same-cosigner"] = (out_other_child, None)
 
     def in_outpoint(p):
-        p["tx"]["ins"][0]["index"] ^= 1
+        p["tx"]["ins"][ii]["index"] ^= 1
         retx(p)
 
     T["in-outpoint-index-changed"] = (in_outpoint, None)
@@ -538,7 +547,13 @@ def run_review(case):
         res.violation(f"C11/review/honest-build-fails/{cfg['stype']}", vc, repr(raw), "PSBT", f"{label}: the library cannot build the honest PSBT")
         return res
     p = copy.deepcopy(psbtref.parse(raw))
-    T = tamperings(cfg)
+    cp = case.get("cp")
+    if cp is not None:
+        # positions engine: the same honest PSBT with its change output moved to index cp
+        move_output(p, change_index(cfg), cp)
+        raw = psbtref.serialize(p)
+        label += f"-change@{cp}-in@{case.get('ii', 0)}"
+    T = tamperings(cfg, ii=case.get("ii", 0), ci=cp)
     must_raise = False
     for nm in case["devs"]:
         f, mr = T[nm]
@@ -593,7 +608,7 @@ def run_review(case):
         res.violation(f"C11/review/change-sum/{devs}", vc, d.get("change_sats"), "sum of flagged outputs", f"{label}: change_sats is not the sum of the outputs labelled change")
         ok = False
     if not case["devs"]:
-        want = change_index(cfg)
+        want = change_index(cfg) if cp is None else cp
         if flagged != ([want] if want is not None else []):
             res.violation(f"C11/review/honest-change-flag/{cfg['stype']}", vc, flagged, want, f"{label}: honest change output not (only) labelled change")
             ok = False
@@ -606,7 +621,909 @@ def run_review(case):
     return res
 
 
+# ================================================================== phase 2: shared helpers of the additional engines
+MAX_MONEY = 21 * 10**14
+OPN = lambda v: bytes([0x50 + v]) if v else b"\x00"
+WHY = {
+    "scriptPubKey does not commit to the attached script": "spk-does-not-commit",
+    "attached script is not the inputs' m-of-n": "script-not-m-of-n",
+    "a script key has no derivation": "key-without-derivation",
+    "derivation does not belong to a cosigner xpub": "derivation-not-from-cosigner-xpub",
+    "key is not derived from the cosigner xpub at the stated path": "key-not-at-stated-path",
+    "keys do not come from n distinct cosigners": "cosigners-not-distinct",
+}
+
+
+@functools.lru_cache(maxsize=None)
+def rel_sec(i, rel):
+    """SEC key of cosigner i's account xpub at the relative (unhardened) path rel (a tuple); None if underivable"""
+    node = bip32ref.derive_pub(cosigner(i)["acct"], list(rel))
+    return None if node is None else node.sec()
+
+
+def strip_xpubs(p):
+    p["global"] = [(k, v) for k, v in p["global"] if k[:1] != b"\x01"]
+
+
+def base(cfg, xpubs=False):
+    """Reference parse (deep copy) of the library-built honest PSBT.  xpubs=False drops the optional global xpub
+    records: the PSBT stays honest, the library just does not re-derive every key against them at parse time."""
+    p = copy.deepcopy(psbtref.parse(honest(cfg)))
+    if not xpubs:
+        strip_xpubs(p)
+    return p
+
+
+def hd_map(n):
+    from buidl.hd import HDPublicKey
+
+    return {cosigner(i)["xfp"].hex(): HDPublicKey.parse(cosigner(i)["xpub"]) for i in range(n)}
+
+
+def lib_describe(raw, n, mode="map"):
+    from buidl.psbt import PSBT
+
+    hdmap = hd_map(n) if mode == "map" else {}
+    return attempt(lambda: PSBT.parse(BytesIO(raw), network="mainnet").describe_basic_multisig(hdpubkey_map=hdmap))
+
+
+def pushes(script):
+    """data items pushed by the script, or None if it does not parse"""
+    try:
+        from mc.ref import interp
+
+        return [d for _, d in interp.parse_script(script) if d]
+    except Exception:
+        return None
+
+
+def p2sh(script):
+    return b"\xa9\x14" + txref.h160(script) + b"\x87"
+
+
+def p2wsh(script):
+    return b"\x00\x20" + txref.sha256(script)
+
+
+def derivation_ok(key, d, n):
+    """the record d (fingerprint + path) names a cosigner and a path under its xpub that derives key"""
+    if d is None or len(d) < 4 or (len(d) - 4) % 4:
+        return False
+    fp, path = d[:4], [int.from_bytes(d[4 + 4 * j : 8 + 4 * j], "little") for j in range((len(d) - 4) // 4)]
+    who = [i for i in range(n) if cosigner(i)["xfp"] == fp]
+    if not who or path[: len(BASE)] != BASE or any(x >= H for x in path[len(BASE) :]):
+        return False
+    return rel_sec(who[0], tuple(path[len(BASE) :])) == key
+
+
+def input_findings(p, i, cfg):
+    """Contradictions (slugs, most basic first) between input i's records, the transaction and the cosigner set:
+    the statement wants every one of them rejected."""
+    im, txin = p["ins"][i], p["tx"]["ins"][i]
+    nw, w = map_get(im, b"\x00"), map_get(im, b"\x01")
+    if nw is None and w is None:
+        return ["no-utxo"]
+    out = []
+    amount = spk = None
+    if nw is not None:
+        try:
+            prev = txref.parse_tx(nw)
+        except Exception:
+            return ["utxo-unparsable"]
+        if bytes.fromhex(txref.txid(prev)) != txin["prev"] or txin["index"] >= len(prev["outs"]):
+            return ["txid-mismatch"]
+        amount, spk = prev["outs"][txin["index"]]["amount"], prev["outs"][txin["index"]]["script"]
+    if w is not None:
+        try:
+            wamount = int.from_bytes(w[:8], "little")
+            ln, pos = txref.read_compact(w, 8)
+            wspk = w[pos : pos + ln]
+            if pos + ln != len(w):
+                raise ValueError
+        except Exception:
+            return ["utxo-unparsable"]
+        if nw is None:
+            amount, spk = wamount, wspk
+        elif (wamount, wspk) != (amount, spk):
+            out.append("records-disagree")
+    rs, ws = map_get(im, b"\x04"), map_get(im, b"\x05")
+    script = None
+    if rs is not None and ws is None and spk == p2sh(rs):
+        script = rs
+    elif ws is not None and rs is None and spk == p2wsh(ws):
+        script = ws
+    elif rs is not None and ws is not None and rs == p2wsh(ws) and spk == p2sh(rs):
+        script = ws
+    if script is None:
+        return out + ["script-mismatch"]
+    keys = pushes(script) or []
+    ders = [(k[1:], v) for k, v in im if k[:1] == b"\x06"]
+    if any(k not in keys for k, _ in ders):
+        out.append("key-not-in-script")
+    if any(not derivation_ok(k, v, cfg["n"]) for k, v in ders):
+        out.append("bad-derivation")
+    return out
+
+
+def output_findings(p, oi):
+    """an attached redeem / witness script that the output's scriptPubKey does not commit to"""
+    om, spk = p["outs"][oi], p["tx"]["outs"][oi]["script"]
+    rs, ws = map_get(om, b"\x00"), map_get(om, b"\x01")
+    if rs is None and ws is None:
+        return []
+    if rs is not None and ws is None and spk == p2sh(rs):
+        return []
+    if ws is not None and rs is None and spk == p2wsh(ws):
+        return []
+    if rs is not None and ws is not None and rs == p2wsh(ws) and spk == p2sh(rs):
+        return []
+    return ["out-script-mismatch"]
+
+
+def judge(res, eng, cls, vc, label, p, cfg, d, problems, want_flags=None, key=None):
+    """d: what describe_basic_multisig gave for the PSBT whose reference parse is p.  problems: contradictions in p
+    (non-empty => the statement wants an error).  Otherwise: arithmetic identities on the data in p, every output
+    labelled change satisfies the independent rule, change_sats is the sum of the labelled outputs, and (honest
+    PSBTs) exactly want_flags are labelled.  Returns True when nothing was wrong."""
+    key = key if key is not None else label
+    if isinstance(d, Rejected):
+        res.ok("rejected", nontrivial=(eng, key), sample={"case": label, "result": "rejected"})
+        return True
+    if problems:
+        res.violation(f"C11/{eng}/summarised-instead-of-rejected/{cls}/{problems[0]}", vc, "summary returned", "error", f"{label}: {', '.join(problems)} but the PSBT is summarised")
+        return False
+    ok = True
+    sums = ref_sums(p)
+    if sums is None:
+        res.violation(f"C11/{eng}/summarised-instead-of-rejected/{cls}/no-utxo", vc, "summary returned", "error", f"{label}: an input has no UTXO data but the PSBT is summarised")
+        return False
+    tin, tout = sums
+    if d.get("tx_fee_sats") != tin - tout:
+        res.violation(f"C11/{eng}/fee-wrong/{cls}", vc, d.get("tx_fee_sats"), tin - tout, f"{label}: fee is not inputs minus outputs")
+        ok = False
+    elif d.get("spend_sats", 0) + d.get("change_sats", 0) + d.get("tx_fee_sats", 0) != tin:
+        res.violation(f"C11/{eng}/sums-wrong/{cls}", vc, (d.get("spend_sats"), d.get("change_sats"), d.get("tx_fee_sats")), tin, f"{label}: spend + change + fee != inputs")
+        ok = False
+    flagged = [i for i, o in enumerate(d.get("outputs_desc", [])) if o.get("is_change")]
+    for oi in flagged:
+        good, why = is_real_change(p, oi, cfg)
+        if not good:
+            res.violation(f"C11/{eng}/fake-change/{cls}/{WHY.get(why, 'other')}", vc, f"output {oi} labelled change", f"not change: {why}", f"{label}: output labelled change although {why}")
+            ok = False
+    if sum(d["outputs_desc"][i]["sats"] for i in flagged) != d.get("change_sats", 0):
+        res.violation(f"C11/{eng}/change-sum/{cls}", vc, d.get("change_sats"), "sum of flagged outputs", f"{label}: change_sats is not the sum of the outputs labelled change")
+        ok = False
+    if want_flags is not None and flagged != want_flags:
+        res.violation(f"C11/{eng}/honest-change-flag/{cls}", vc, flagged, want_flags, f"{label}: honest change output not (only) labelled change")
+        ok = False
+    if ok:
+        res.ok("summarised faithfully", nontrivial=(eng, key), sample={"case": label, "fee": d.get("tx_fee_sats"), "change_flags": flagged})
+    return ok
+
+
+def all_problems(p, cfg):
+    out = []
+    for i in range(len(p["ins"])):
+        out += input_findings(p, i, cfg)
+    for oi in range(len(p["outs"])):
+        out += output_findings(p, oi)
+    return out
+
+
+def wallets(tier, quick, thorough):
+    return quick if tier == "quick" else thorough
+
+
+def cfg_of(st, m, n, nin=1, shape="spend+change"):
+    return {"stype": st, "m": m, "n": n, "nin": nin, "shape": shape}
+
+
+def lab(cfg):
+    return f"{cfg['stype']}-{cfg['m']}of{cfg['n']}-{cfg['nin']}in-{cfg['shape']}"
+
+
+# ================================================================== E1 shapes: what is attached as the change script
+OUT_KINDS = ("p2sh", "p2wsh", "p2sh-p2wsh")
+SHAPE_ALPH = ["OP_0", "OP_1", "OP_2", "OP_3", "OP_n+1", "OP_16", "OP_1NEGATE", "OP_NOP", "OP_DROP", "OP_2DROP", "OP_RETURN", "OP_CHECKSIG", "OP_CHECKMULTISIG", "OP_CHECKMULTISIGVERIFY", "attacker-key", "repeated-cosigner-key", "n-as-1-byte-push"]
+PAIR_ALPH = ["OP_n+1", "OP_NOP", "OP_DROP", "OP_2DROP", "OP_CHECKSIG", "OP_CHECKMULTISIG", "attacker-key", "OP_1"]
+
+
+@functools.lru_cache(maxsize=None)
+def att_key(i):
+    return bip32ref.derive_pub(attacker(i % 3)["acct"], [0, i]).sec()
+
+
+def shape_token(name, m, n, keys):
+    return {
+        "OP_0": b"\x00", "OP_1": b"\x51", "OP_2": b"\x52", "OP_3": b"\x53", "OP_n+1": OPN(n + 1), "OP_16": b"\x60", "OP_1NEGATE": b"\x4f",
+        "OP_NOP": b"\x61", "OP_DROP": b"\x75", "OP_2DROP": b"\x6d", "OP_RETURN": b"\x6a", "OP_CHECKSIG": b"\xac", "OP_CHECKMULTISIG": b"\xae",
+        "OP_CHECKMULTISIGVERIFY": b"\xaf", "attacker-key": txref.push(att_key(0)), "repeated-cosigner-key": txref.push(keys[0]), "n-as-1-byte-push": bytes([1, n]),
+    }[name]
+
+
+def honest_tokens(m, n, keys):
+    return [OPN(m)] + [txref.push(k) for k in keys] + [OPN(n), b"\xae"]
+
+
+def mutate(toks, mut, m, n, keys):
+    """mut = [kind, position, token name]"""
+    kind, pos, tok = mut
+    t = list(toks)
+    if kind == "replace":
+        t[pos] = shape_token(tok, m, n, keys)
+    elif kind == "insert":
+        t.insert(pos, shape_token(tok, m, n, keys))
+    else:
+        del t[pos]
+    return t
+
+
+def shells(m, n, keys):
+    """scripts that keep OP_m <all cosigner keys> at the front and OP_CHECKMULTISIG at the end, or wrap / extend the honest script"""
+    hon = b"".join(honest_tokens(m, n, keys))
+    front = OPN(m) + b"".join(txref.push(k) for k in keys)
+    drops = b"\x6d" * ((n + 1) // 2) + (b"\x75" if (n + 1) % 2 else b"")  # clears OP_m and the n keys from the stack
+    out = []
+    for j in (1, 2, 3):
+        for a in range(1, j + 1):
+            for f in sorted({j, n}):
+                out.append((f"front+drops+{a}-of-{j}-attacker-keys+OP_{f}", front + drops + OPN(a) + b"".join(txref.push(att_key(x)) for x in range(j)) + OPN(f) + b"\xae"))
+    A = txref.push(att_key(0))
+    out += [
+        ("honest+OP_DROP+attacker-CHECKSIG", hon + b"\x75" + A + b"\xac"),
+        ("honest+OP_DROP+1-of-1-attacker", hon + b"\x75\x51" + A + b"\x51\xae"),
+        ("honest(VERIFY)+1-of-1-attacker", hon[:-1] + b"\xaf\x51" + A + b"\x51\xae"),
+        ("attacker-CHECKSIGVERIFY+honest", A + b"\xad" + hon),
+        ("OP_m+OP_DROP+honest", OPN(m) + b"\x75" + hon),
+        ("OP_IF-honest-OP_ELSE-attacker", b"\x63" + hon + b"\x67" + A + b"\xac\x68"),
+        ("OP_m+OP_IF-keys..-attacker-branch", OPN(m) + b"\x63" + b"".join(txref.push(k) for k in keys) + OPN(n) + b"\xae\x67\x75\x51" + A + b"\x51\xae\x68" + OPN(n) + b"\xae"),
+        ("front+OP_n+CHECKMULTISIG+OP_NOT+OP_n+CHECKMULTISIG", hon + b"\x91" + OPN(n) + b"\xae"),
+    ]
+    return out
+
+
+def encodings(m, n, keys):
+    pd1 = lambda k: b"\x4c" + bytes([len(k)]) + k
+    pd2 = lambda k: b"\x4d" + len(k).to_bytes(2, "little") + k
+    hon = b"".join(honest_tokens(m, n, keys))
+    return [
+        ("keys-by-PUSHDATA1", OPN(m) + b"".join(pd1(k) for k in keys) + OPN(n) + b"\xae"),
+        ("one-key-by-PUSHDATA2", OPN(m) + pd2(keys[0]) + b"".join(txref.push(k) for k in keys[1:]) + OPN(n) + b"\xae"),
+        ("m-as-1-byte-push", bytes([1, m]) + b"".join(txref.push(k) for k in keys) + OPN(n) + b"\xae"),
+        ("n-as-1-byte-push", OPN(m) + b"".join(txref.push(k) for k in keys) + bytes([1, n]) + b"\xae"),
+        ("trailing-truncated-PUSHDATA1", hon + b"\x4c"),
+        ("trailing-truncated-push", hon + b"\x02\xaa"),
+        ("keys-in-reverse-order", OPN(m) + b"".join(txref.push(k) for k in reversed(keys)) + OPN(n) + b"\xae"),
+        ("honest", hon),
+    ]
+
+
+def shape_scripts(case):
+    """the scripts of one case: [(name, script bytes)]"""
+    cfg = case["cfg"]
+    m, n = cfg["m"], cfg["n"]
+    keys = sorted(child_sec(i, 1, 7) for i in range(n))
+    toks = honest_tokens(m, n, keys)
+    fam = case["family"]
+    if fam == "shells":
+        return shells(m, n, keys)
+    if fam == "encodings":
+        return encodings(m, n, keys)
+    if fam == "delete":
+        return [(f"delete@{i}", b"".join(mutate(toks, ["delete", i, None], m, n, keys))) for i in range(len(toks))]
+    if fam in ("replace", "insert"):
+        return [(f"{fam}@{case['pos']}:{t}", b"".join(mutate(toks, [fam, case["pos"], t], m, n, keys))) for t in SHAPE_ALPH]
+    if fam == "pair":  # first mutation fixed by the case, second one ranges over the rest of the pair space
+        out = []
+        muts = pair_mutations(n)
+        first = muts[case["first"]]
+        for second in muts[case["first"] + 1 :]:
+            t = mutate(toks, second, m, n, keys)  # the later position first so that indexes stay valid
+            out.append((f"{first[0]}@{first[1]}:{first[2]}+{second[0]}@{second[1]}:{second[2]}", b"".join(mutate(t, first, m, n, keys))))
+        return out
+    raise ValueError(fam)
+
+
+def pair_mutations(n):
+    """single mutations that leave the n key pushes in place (positions of OP_m, OP_n, OP_CHECKMULTISIG; any insertion point), ordered by position"""
+    muts = [["replace", pos, t] for pos in (0, n + 1, n + 2) for t in PAIR_ALPH] + [["insert", pos, t] for pos in range(n + 4) for t in PAIR_ALPH]
+    return sorted(muts, key=lambda x: (x[1], x[0], x[2]))
+
+
+def gen_shapes(tier, seed):
+    combos = [("p2sh", "p2sh"), ("p2wsh", "p2wsh"), ("p2sh", "p2wsh"), ("p2wsh", "p2sh-p2wsh")] if tier == "quick" else [(a, b) for a in ("p2sh", "p2wsh") for b in OUT_KINDS]
+    cases = []
+    for m, n in wallets(tier, [(2, 3)], [(2, 3), (1, 2), (1, 1)]):
+        for ist, ok in combos:
+            cfg = cfg_of(ist, m, n)
+            for fam in ("shells", "encodings", "delete"):
+                cases.append({"cfg": cfg, "out": ok, "family": fam})
+            if tier == "quick" and ok != ist:
+                continue  # quick: single-token replacements / insertions only where the change output has the inputs' type
+            for pos in range(n + 3):
+                cases.append({"cfg": cfg, "out": ok, "family": "replace", "pos": pos})
+            for pos in range(n + 4):
+                cases.append({"cfg": cfg, "out": ok, "family": "insert", "pos": pos})
+    if tier == "thorough":
+        for ist, ok in (("p2sh", "p2sh"), ("p2wsh", "p2wsh")):
+            for first in range(len(pair_mutations(3)) - 1):
+                cases.append({"cfg": cfg_of(ist, 2, 3), "out": ok, "family": "pair", "first": first})
+    return cases
+
+
+def attach_change(p, ci, kind, script, spk=None):
+    """attach script to output ci the way an output of the given kind carries it; derivation records stay"""
+    om = [(k, v) for k, v in p["outs"][ci] if k[:1] not in (b"\x00", b"\x01")]
+    if kind == "p2sh":
+        om.insert(0, (b"\x00", script))
+        want = p2sh(script)
+    elif kind == "p2wsh":
+        om.insert(0, (b"\x01", script))
+        want = p2wsh(script)
+    else:
+        om.insert(0, (b"\x01", script))
+        om.insert(0, (b"\x00", p2wsh(script)))
+        want = p2sh(p2wsh(script))
+    p["outs"][ci] = om
+    p["tx"]["outs"][ci]["script"] = want if spk is None else spk
+    retx(p)
+
+
+def run_shapes(case):
+    res = Res()
+    cfg, kind = case["cfg"], case["out"]
+    vc = {"engine": "shapes", "case": case}
+    p0 = attempt(base, cfg)
+    if isinstance(p0, Rejected):
+        res.violation(f"C11/shapes/honest-build-fails/{cfg['stype']}", vc, repr(p0), "PSBT", f"{lab(cfg)}: the library cannot build the honest PSBT")
+        return res
+    ci = change_index(cfg)
+    seen = set()
+    for name, script in shape_scripts(case):
+        if script in seen or len(script) > 520:
+            continue
+        seen.add(script)
+        p = copy.deepcopy(p0)
+        attach_change(p, ci, kind, script)
+        d = lib_describe(psbtref.serialize(p), cfg["n"])
+        honest_same_type = name == "honest" and kind == cfg["stype"]
+        label = f"{lab(cfg)}: change output {kind} over script [{name}]"
+        if honest_same_type and isinstance(d, Rejected):
+            res.violation(f"C11/shapes/honest-rejected/{kind}", vc, repr(d), "summary", f"{label}: honest PSBT is not summarised")
+            continue
+        judge(res, "shapes", kind, vc, label, p, cfg, d, [], want_flags=[ci] if honest_same_type else None, key=(lab(cfg), kind, name))
+    return res
+
+
+# ================================================================== E1 spkforms: what the change scriptPubKey is
+def spk_forms(script, family):
+    h32, h20s = txref.sha256(script), txref.h160(script)
+    rs = p2wsh(script)
+    h20r = txref.h160(rs)
+    if family in ("OP_k+sha256(script)", "OP_k+hash160(script)", "OP_k+hash160(0020sha256)"):
+        h = {"OP_k+sha256(script)": h32, "OP_k+hash160(script)": h20s, "OP_k+hash160(0020sha256)": h20r}[family]
+        return [(f"OP_{k} <{family[5:]}>", OPN(k) + txref.push(h)) for k in range(17)]
+    out = []
+    for nm, h in (("hash160(script)", h20s), ("hash160(0020sha256)", h20r)):
+        out += [
+            (f"OP_HASH160 <{nm}> OP_EQUAL", b"\xa9\x14" + h + b"\x87"),
+            (f"OP_HASH160 <{nm}> OP_EQUALVERIFY", b"\xa9\x14" + h + b"\x88"),
+            (f"OP_HASH160 <{nm}> OP_EQUAL OP_1", b"\xa9\x14" + h + b"\x87\x51"),
+            (f"OP_HASH160 PUSHDATA1 <{nm}> OP_EQUAL", b"\xa9\x4c\x14" + h + b"\x87"),
+            (f"p2pkh <{nm}>", b"\x76\xa9\x14" + h + b"\x88\xac"),
+            (f"OP_0 PUSHDATA1 <{nm}>", b"\x00\x4c\x14" + h),
+            (f"OP_RETURN <{nm}>", b"\x6a\x14" + h),
+            (f"OP_RIPEMD160 <{nm}> OP_EQUAL", b"\xa6\x14" + h + b"\x87"),
+        ]
+    out += [
+        ("OP_HASH160 <sha256(script)> OP_EQUAL", b"\xa9\x20" + h32 + b"\x87"),
+        ("OP_SHA256 <sha256(script)> OP_EQUAL", b"\xa8\x20" + h32 + b"\x87"),
+        ("OP_HASH256 <sha256(script)> OP_EQUAL", b"\xaa\x20" + h32 + b"\x87"),
+        ("OP_0 PUSHDATA1 <sha256(script)>", b"\x00\x4c\x20" + h32),
+        ("OP_0 <sha256(script)> OP_1", b"\x00\x20" + h32 + b"\x51"),
+        ("OP_RETURN <sha256(script)>", b"\x6a\x20" + h32),
+        ("OP_DUP <sha256(script)>", b"\x76\x20" + h32),
+        ("<sha256(script)> <sha256(script)>", b"\x20" + h32 + b"\x20" + h32),
+        ("<sha256(script)> alone", b"\x20" + h32),
+        ("the script itself (bare multisig)", script),
+        ("empty", b""),
+    ]
+    return out
+
+
+SPK_FAMILIES = ("OP_k+sha256(script)", "OP_k+hash160(script)", "OP_k+hash160(0020sha256)", "other")
+ATTACHED = ("redeem", "witness", "both", "none(derivations only)", "script-without-derivations")
+
+
+def gen_spkforms(tier, seed):
+    cases = []
+    for m, n in wallets(tier, [(2, 3)], [(2, 3), (1, 2)]):
+        for ist in ("p2sh", "p2wsh"):
+            for att in ATTACHED:
+                for fam in SPK_FAMILIES:
+                    cases.append({"cfg": cfg_of(ist, m, n), "attached": att, "family": fam})
+    return cases
+
+
+def run_spkforms(case):
+    res = Res()
+    cfg, att = case["cfg"], case["attached"]
+    vc = {"engine": "spkforms", "case": case}
+    p0 = attempt(base, cfg)
+    if isinstance(p0, Rejected):
+        res.violation(f"C11/spkforms/honest-build-fails/{cfg['stype']}", vc, repr(p0), "PSBT", f"{lab(cfg)}: the library cannot build the honest PSBT")
+        return res
+    ci = change_index(cfg)
+    script = ms_script(cfg["m"], [child_sec(i, 1, 7) for i in range(cfg["n"])])
+    cls = att.split("(")[0]
+    for name, spk in spk_forms(script, case["family"]):
+        p = copy.deepcopy(p0)
+        kind = {"redeem": "p2sh", "witness": "p2wsh", "both": "p2sh-p2wsh"}.get(att)
+        if kind:
+            attach_change(p, ci, kind, script, spk=spk)
+        elif att.startswith("none"):
+            p["outs"][ci] = [(k, v) for k, v in p["outs"][ci] if k[:1] not in (b"\x00", b"\x01")]
+            p["tx"]["outs"][ci]["script"] = spk
+            retx(p)
+        else:
+            attach_change(p, ci, "p2sh" if cfg["stype"] == "p2sh" else "p2wsh", script, spk=spk)
+            p["outs"][ci] = [(k, v) for k, v in p["outs"][ci] if k[:1] != b"\x02"]
+        d = lib_describe(psbtref.serialize(p), cfg["n"])
+        label = f"{lab(cfg)}: change metadata [{att}] on scriptPubKey [{name}]"
+        judge(res, "spkforms", cls, vc, label, p, cfg, d, output_findings(p, ci), key=(lab(cfg), att, name))
+    return res
+
+
+# ================================================================== E1 utxo: which UTXO records an input carries
+RECORDS = ("nw", "w", "nw+w", "w+nw", "none")
+WMODS = ("same", "amount+", "amount-", "spk-foreign")
+NWMODS = ("same", "amount+", "other-tx")
+IN_TAMPER = ("honest", "in-script-foreign", "in-derivation-replaced-by-other-child-of-same-cosigner", "in-derivation-wrong-path", "in-derivation-foreign-fingerprint")
+
+
+def utxo_records(p, i):
+    """(non-witness record, witness record) for input i, each built from whichever record the honest PSBT has"""
+    im, txin = p["ins"][i], p["tx"]["ins"][i]
+    nw, w = map_get(im, b"\x00"), map_get(im, b"\x01")
+    if nw is not None:
+        o = txref.parse_tx(nw)["outs"][txin["index"]]
+        return nw, o["amount"].to_bytes(8, "little") + txref.varbytes(o["script"])
+    amount = int.from_bytes(w[:8], "little")
+    ln, pos = txref.read_compact(w, 8)
+    prev = {"version": 1, "locktime": 0, "segwit": False, "ins": [{"prev": b"\x99" * 32, "index": 0, "script": b"", "seq": 0xFFFFFFFF, "witness": []}], "outs": [{"amount": amount - txin["index"] + k, "script": w[pos : pos + ln] if k == txin["index"] else b"\x51"} for k in range(txin["index"] + 1)]}
+    return txref.ser_tx(prev), w
+
+
+def gen_utxo(tier, seed):
+    cases = []
+    for m, n in wallets(tier, [(1, 2)], [(1, 2), (2, 3)]):
+        for st in ("p2sh", "p2wsh"):
+            for rec in RECORDS:
+                for wm in WMODS if "w" in rec.replace("nw", "") else ("same",):
+                    for nm in NWMODS if "nw" in rec else ("same",):
+                        cases.append({"cfg": cfg_of(st, m, n), "records": rec, "wmod": wm, "nwmod": nm})
+    return cases
+
+
+def run_utxo(case):
+    res = Res()
+    cfg, rec, wm, nm = case["cfg"], case["records"], case["wmod"], case["nwmod"]
+    st = cfg["stype"]
+    vc = {"engine": "utxo", "case": case}
+    p0 = attempt(base, cfg)
+    if isinstance(p0, Rejected):
+        res.violation(f"C11/utxo/honest-build-fails/{st}", vc, repr(p0), "PSBT", f"{lab(cfg)}: the library cannot build the honest PSBT")
+        return res
+    nw, w = utxo_records(p0, 0)
+    if bytes.fromhex(txref.txid(txref.parse_tx(nw))) != p0["tx"]["ins"][0]["prev"]:
+        res.skip("previous transaction of the honest PSBT cannot be reconstructed")
+        return res
+    amount = int.from_bytes(w[:8], "little")
+    if wm == "amount+":
+        w = (amount + 2_000_000).to_bytes(8, "little") + w[8:]
+    elif wm == "amount-":
+        w = (amount - 2_000_000).to_bytes(8, "little") + w[8:]
+    elif wm == "spk-foreign":
+        w = w[:8] + txref.varbytes(p2sh(b"\x51") if st == "p2sh" else p2wsh(b"\x51"))
+    if nm != "same":
+        prev = txref.parse_tx(nw)
+        if nm == "amount+":
+            prev["outs"][p0["tx"]["ins"][0]["index"]]["amount"] += 2_000_000
+        else:
+            prev["locktime"] = 5
+        nw = txref.ser_tx(prev)
+    T = tamperings(cfg)
+    for tam in IN_TAMPER:
+        p = copy.deepcopy(p0)
+        im = [(k, v) for k, v in p["ins"][0] if k not in (b"\x00", b"\x01")]
+        for r in reversed(rec.split("+")) if rec != "none" else []:
+            im.insert(0, (b"\x00", nw) if r == "nw" else (b"\x01", w))
+        p["ins"][0] = im
+        if tam != "honest":
+            T[tam][0](p)
+        probs = input_findings(p, 0, cfg)
+        if st == "p2sh" and rec == "w" and wm in ("amount+", "amount-") and not probs:
+            # a legacy input whose amount is claimed by a witness-UTXO record alone: the altered amount can only be
+            # refused by insisting on the previous transaction (BIP174 signer rule for non-witness inputs)
+            probs = ["legacy-witness-only-amount"]
+        label = f"{lab(cfg)}: input records [{rec}] witness-utxo {wm}, non-witness-utxo {nm}, {tam}"
+        d = lib_describe(psbtref.serialize(p), cfg["n"])
+        plain = rec == ("nw" if st == "p2sh" else "w") and wm == "same" and nm == "same" and tam == "honest"
+        if plain and isinstance(d, Rejected):
+            res.violation(f"C11/utxo/honest-rejected/{st}", vc, repr(d), "summary", f"{label}: honest PSBT is not summarised")
+            continue
+        judge(res, "utxo", st, vc, label, p, cfg, d, probs, want_flags=[change_index(cfg)] if plain else None, key=(lab(cfg), rec, wm, nm, tam))
+    return res
+
+
+# ================================================================== E1 paths: what a derivation record says
+PATH_VARIANTS = {
+    # name: (function(base path list) -> stated path, key stays the honest one, every changed component is encoded in the xpub itself)
+    "purpose-wrong": (lambda b, i: [99 + H, 0, b, i], True, False),
+    "purpose-unhardened": (lambda b, i: [45, 0, b, i], True, False),
+    "account-wrong": (lambda b, i: [45 + H, 5, b, i], True, True),
+    "purpose-and-account-wrong": (lambda b, i: [99 + H, 5, b, i], True, True),
+    "prefix-dropped": (lambda b, i: [b, i], True, True),
+    "prefix-only": (lambda b, i: [45 + H, 0], True, True),
+    "one-component": (lambda b, i: [45 + H], True, True),
+    "empty-path": (lambda b, i: [], True, True),
+    "branch-hardened": (lambda b, i: [45 + H, 0, b + H, i], True, True),
+    "index-hardened": (lambda b, i: [45 + H, 0, b, i + H], True, True),
+    "extra-level": (lambda b, i: [45 + H, 0, b, i, 0], True, True),
+    "index-off-by-one": (lambda b, i: [45 + H, 0, b, i + 1], True, True),
+    "extra-level-and-its-key": (lambda b, i: [45 + H, 0, b, i, 3], False, True),
+    "prefix-only-and-xpub-key": (lambda b, i: [45 + H, 0], False, True),
+    "other-branch-and-its-key": (lambda b, i: [45 + H, 0, 5, i], False, True),
+}
+
+
+def gen_paths(tier, seed):
+    cases = []
+    for m, n in wallets(tier, [(1, 2)], [(1, 2), (2, 3)]):
+        for st in ("p2sh", "p2wsh"):
+            for mode in ("map", "psbt-xpubs"):
+                for side in ("out", "in"):
+                    for which in ("one", "all") if tier == "thorough" else ("one",):
+                        for name in PATH_VARIANTS:
+                            cases.append({"cfg": cfg_of(st, m, n), "mode": mode, "side": side, "which": which, "variant": name})
+    return cases
+
+
+def run_paths(case):
+    res = Res()
+    cfg, mode, side, which = case["cfg"], case["mode"], case["side"], case["which"]
+    st, m, n = cfg["stype"], cfg["m"], cfg["n"]
+    vc = {"engine": "paths", "case": case}
+    p0 = attempt(base, cfg, mode == "psbt-xpubs")
+    if isinstance(p0, Rejected):
+        res.violation(f"C11/paths/honest-build-fails/{st}", vc, repr(p0), "PSBT", f"{lab(cfg)}: the library cannot build the honest PSBT")
+        return res
+    ci = change_index(cfg)
+    branch, idx = (1, 7) if side == "out" else (0, 0)
+    kt = b"\x02" if side == "out" else b"\x06"
+    for name, (fn, key_kept, knowable) in [(case["variant"], PATH_VARIANTS[case["variant"]])]:
+        if not knowable and mode == "map":
+            res.skip("the changed path component is not encoded in an xpub handed over without its path")
+            continue
+        if not key_kept and side == "in":
+            res.skip("re-keying an input changes the UTXO (covered on the output side)")
+            continue
+        who = [0] if which == "one" else list(range(n))
+        path = fn(branch, idx)
+        p = copy.deepcopy(p0)
+        mp = p["outs"][ci] if side == "out" else p["ins"][0]
+        new_keys = {}
+        for j, (k, v) in enumerate(mp):
+            if k[:1] != kt:
+                continue
+            i = [x for x in range(n) if cosigner(x)["xfp"] == v[:4]][0]
+            if i not in who:
+                continue
+            key = k[1:]
+            if not key_kept:
+                key = rel_sec(i, tuple(path[2:]))
+                new_keys[k[1:]] = key
+            mp[j] = (kt + key, v[:4] + b"".join(x.to_bytes(4, "little") for x in path))
+        if new_keys:  # the change script is rebuilt over the new keys, scriptPubKey consistent
+            keys = [new_keys.get(child_sec(i, 1, 7), child_sec(i, 1, 7)) for i in range(n)]
+            attach_change(p, ci, st, ms_script(m, keys))
+        label = f"{lab(cfg)}: {side} derivation(s) of {which} cosigner(s) state {name} ({mode})"
+        probs = all_problems(p, cfg) if side == "in" else []
+        if probs:
+            probs = ["in-path-" + ("prefix" if name in ("purpose-wrong", "purpose-unhardened", "account-wrong", "purpose-and-account-wrong", "prefix-dropped") else "other")]
+        d = lib_describe(psbtref.serialize(p), n, mode)
+        judge(res, "paths", mode, vc, label, p, cfg, d, probs, key=(lab(cfg), mode, side, which, name))
+    return res
+
+
+# ================================================================== E1 xpubs: the catalogue and the global xpub records, PSBT's own xpubs as the wallet
+def gx_tamperings(cfg):
+    n = cfg["n"]
+
+    def recs(p):
+        return [j for j, (k, v) in enumerate(p["global"]) if k[:1] == b"\x01"]
+
+    def rec_of(p, i):
+        return [j for j in recs(p) if p["global"][j][1][:4] == cosigner(i)["xfp"]][0]
+
+    att_raw = attacker(0)["acct"].payload(bip32ref.version_bytes("xpub"), False)
+    T = {}
+
+    def swap(p):
+        j = rec_of(p, 0)
+        p["global"][j] = (b"\x01" + att_raw, p["global"][j][1])
+
+    def dup_last(p):
+        p["global"].append((b"\x01" + att_raw, p["global"][rec_of(p, 0)][1]))
+
+    def dup_first(p):
+        p["global"].insert(recs(p)[0], (b"\x01" + att_raw, p["global"][rec_of(p, 0)][1]))
+
+    def drop(p):
+        del p["global"][rec_of(p, 0)]
+
+    def path_changed(p):
+        j = rec_of(p, 0)
+        k, v = p["global"][j]
+        p["global"][j] = (k, v[:-4] + (5).to_bytes(4, "little"))
+
+    def fp_changed(p):
+        j = rec_of(p, 0)
+        k, v = p["global"][j]
+        p["global"][j] = (k, b"\xde\xad\xbe\xef" + v[4:])
+
+    def longer(p):
+        j = rec_of(p, 0)
+        k, v = p["global"][j]
+        p["global"][j] = (k, v + (0).to_bytes(4, "little"))
+
+    def all_dropped(p):
+        strip_xpubs(p)
+
+    T["gx-xpub-swapped-to-attacker(fingerprint kept)"] = swap
+    T["gx-attacker-xpub-added-under-cosigner-fingerprint(last)"] = dup_last
+    T["gx-attacker-xpub-added-under-cosigner-fingerprint(first)"] = dup_first
+    T["gx-one-xpub-dropped"] = drop
+    T["gx-all-xpubs-dropped"] = all_dropped
+    T["gx-path-last-component-changed"] = path_changed
+    T["gx-fingerprint-changed"] = fp_changed
+    T["gx-path-longer-than-depth"] = longer
+    return T
+
+
+def gen_xpubs(tier, seed):
+    cases = []
+    cfgs = [cfg_of(st, 1, 2) for st in ("p2sh", "p2wsh")] if tier == "quick" else [c for c in configs(tier) if (c["m"], c["n"]) in ((1, 2), (2, 3))]
+    for cfg in cfgs:
+        for nm in tamperings(cfg):
+            cases.append({"cfg": cfg, "devs": [nm], "mode": "psbt-xpubs"})
+    for cfg in [cfg_of(st, m, n) for m, n in wallets(tier, [(1, 2)], [(1, 2), (2, 3)]) for st in ("p2sh", "p2wsh")]:
+        for nm in gx_tamperings(cfg):
+            for mode in ("psbt-xpubs", "map"):
+                cases.append({"cfg": cfg, "gx": nm, "mode": mode})
+    return cases
+
+
+def run_xpubs(case):
+    if "gx" not in case:
+        return run_review(case)  # same descriptor, same oracle, the PSBT's own global xpubs instead of the map
+    res = Res()
+    cfg = case["cfg"]
+    vc = {"engine": "xpubs", "case": case}
+    p = attempt(base, cfg, True)
+    if isinstance(p, Rejected):
+        res.violation(f"C11/xpubs/honest-build-fails/{cfg['stype']}", vc, repr(p), "PSBT", f"{lab(cfg)}: the library cannot build the honest PSBT")
+        return res
+    gx_tamperings(cfg)[case["gx"]](p)
+    d = lib_describe(psbtref.serialize(p), cfg["n"], case["mode"])
+    judge(res, "xpubs", case["mode"], vc, f"{lab(cfg)}: {case['gx']} ({case['mode']})", p, cfg, d, all_problems(p, cfg))
+    return res
+
+
+# ================================================================== E1 positions: the same catalogue at other input / output indexes
+def gen_positions(tier, seed):
+    cases = []
+    for m, n in wallets(tier, [(1, 2)], [(1, 2), (2, 3)]):
+        for st in ("p2sh", "p2wsh"):
+            cfg = cfg_of(st, m, n, nin=2, shape="batch+change")
+            for cp in (0, 2) if tier == "thorough" else ((2,) if st == "p2sh" else (0,)):
+                cases.append({"cfg": cfg, "devs": [], "mode": "map", "cp": cp, "ii": 0})
+                for nm in tamperings(cfg, ci=cp):
+                    if not nm.startswith("in-"):
+                        cases.append({"cfg": cfg, "devs": [nm], "mode": "map", "cp": cp, "ii": 0})
+            for nm in tamperings(cfg):
+                if nm.startswith("in-"):
+                    cases.append({"cfg": cfg, "devs": [nm], "mode": "map", "cp": 1, "ii": 1})
+    return cases
+
+
+# ================================================================== E1 amounts: the arithmetic over an amount alphabet
+def amount_alphabet(tier):
+    return [0, 1, 2**32, MAX_MONEY] if tier == "quick" else [0, 1, 546, 2**32 - 1, 2**32, MAX_MONEY, 2**63 - 1, 2**63, 2**64 - 1]
+
+
+def set_amounts(p, tin, outs):
+    """every input gets amount tin (records stay consistent: the previous transaction is rebuilt and the outpoint follows), outputs get outs"""
+    for i, im in enumerate(p["ins"]):
+        nw, w = map_get(im, b"\x00"), map_get(im, b"\x01")
+        if nw is not None:
+            prev = txref.parse_tx(nw)
+            prev["outs"][p["tx"]["ins"][i]["index"]]["amount"] = tin
+            prev["locktime"] = i  # distinct previous transactions
+            set_map(im, b"\x00", txref.ser_tx(prev))
+            p["tx"]["ins"][i]["prev"] = bytes.fromhex(txref.txid(prev))
+        else:
+            set_map(im, b"\x01", tin.to_bytes(8, "little") + w[8:])
+    for o, a in zip(p["tx"]["outs"], outs):
+        o["amount"] = a
+    retx(p)
+
+
+def gen_amounts(tier, seed):
+    A = amount_alphabet(tier)
+    cases = []
+    for st in ("p2sh", "p2wsh"):
+        for nin in (1,) if tier == "quick" else (1, 2):
+            for tin in A:
+                for spend in A if tier == "thorough" else (0, 2**32):
+                    cases.append({"cfg": cfg_of(st, 1, 2, nin=nin), "tin": tin, "spend": spend, "family": "spend+change", "alphabet": A})
+            for a in A:
+                cases.append({"cfg": cfg_of(st, 1, 2, nin=nin), "tin": MAX_MONEY, "spend": 1000, "first": a, "family": "two-change-outputs", "alphabet": A})
+    return cases
+
+
+def run_amounts(case):
+    res = Res()
+    cfg = case["cfg"]
+    st = cfg["stype"]
+    vc = {"engine": "amounts", "case": case}
+    case = {k: (int(v) if k in ("tin", "spend", "first") else v) for k, v in case.items()}  # replay files carry big integers as strings
+    p0 = attempt(base, cfg)
+    if isinstance(p0, Rejected):
+        res.violation(f"C11/amounts/honest-build-fails/{st}", vc, repr(p0), "PSBT", f"{lab(cfg)}: the library cannot build the honest PSBT")
+        return res
+    ci = change_index(cfg)
+    for other in map(int, case["alphabet"]):
+        p = copy.deepcopy(p0)
+        if case["family"] == "spend+change":
+            outs = [case["spend"], other]
+            set_amounts(p, case["tin"], outs)
+            tin = case["tin"] * cfg["nin"]
+            sane = 0 < tin and case["tin"] <= MAX_MONEY and all(a <= MAX_MONEY for a in outs) and sum(outs) <= tin <= MAX_MONEY
+            label = f"{lab(cfg)}: honest PSBT, each input {case['tin']}, spend {case['spend']}, change {other}"
+            d = lib_describe(psbtref.serialize(p), cfg["n"])
+            if sane and isinstance(d, Rejected):
+                res.violation(f"C11/amounts/honest-rejected/{st}", vc, repr(d), "summary", f"{label}: honest PSBT with valid amounts is not summarised")
+                continue
+            if judge(res, "amounts", st, vc, label, p, cfg, d, [], want_flags=[ci] if sane else None, key=(lab(cfg), case["tin"], case["spend"], other)) and not isinstance(d, Rejected):
+                if (d.get("spend_sats"), d.get("change_sats"), d.get("total_input_sats")) != (case["spend"], other, tin):
+                    res.violation(f"C11/amounts/amounts-wrong/{st}", vc, (d.get("spend_sats"), d.get("change_sats"), d.get("total_input_sats")), (case["spend"], other, tin), f"{label}: spend / change / input totals are not the amounts in the PSBT")
+        else:
+            # two outputs to the wallet's own change script, amounts (first, other): an error, or both are really change and the sums hold
+            set_amounts(p, case["tin"], [case["spend"], case["first"]])
+            p["tx"]["outs"].append({"amount": other, "script": p["tx"]["outs"][ci]["script"]})
+            p["outs"].append(copy.deepcopy(p["outs"][ci]))
+            retx(p)
+            label = f"{lab(cfg)}: two change outputs with amounts {case['first']} and {other}"
+            d = lib_describe(psbtref.serialize(p), cfg["n"])
+            judge(res, "amounts", st + "/two-change", vc, label, p, cfg, d, [], key=(lab(cfg), "two", case["first"], other))
+    return res
+
+
+# ================================================================== E2 histories: describe twice, combine then describe
+HIST_VARIANTS = ("honest", "utxo-other-record-added-amount+", "utxo-other-record-added-honest", "utxo-kind-swapped+in-script-foreign", "in-script-foreign", "in-derivation-replaced-by-other-child-of-same-cosigner",
+                 "in-derivation-wrong-path", "out-script-foreign", "out-derivation-wrong-path", "out-derivation-foreign-fingerprint", "out-script-under-other-key-type", "out-derivation-replaced-by-other-child-of-same-cosigner")
+HISTORIES = ("describe-twice", "honest.combine(variant)-describe", "variant.combine(honest)-describe", "describe-honest.combine(variant)-describe")
+
+
+def hist_variant(cfg, name):
+    p = base(cfg)
+    if name == "honest":
+        return p
+    if name.startswith("utxo-"):
+        nw, w = utxo_records(p, 0)
+        have_nw = map_get(p["ins"][0], b"\x00") is not None
+        if name == "utxo-other-record-added-amount+":
+            if have_nw:
+                p["ins"][0].insert(1, (b"\x01", (int.from_bytes(w[:8], "little") + 2_000_000).to_bytes(8, "little") + w[8:]))
+            else:
+                set_map(p["ins"][0], b"\x01", (int.from_bytes(w[:8], "little") + 2_000_000).to_bytes(8, "little") + w[8:])
+                p["ins"][0].insert(0, (b"\x00", nw))
+        elif name == "utxo-other-record-added-honest":
+            p["ins"][0].insert(1, (b"\x01", w)) if have_nw else p["ins"][0].insert(0, (b"\x00", nw))
+        else:
+            p["ins"][0] = [(b"\x01", w) if have_nw else (b"\x00", nw)] + [(k, v) for k, v in p["ins"][0] if k not in (b"\x00", b"\x01")]
+            tamperings(cfg)["in-script-foreign"][0](p)
+        return p
+    tamperings(cfg)[name][0](p)
+    return p
+
+
+def ref_combine(a, b):
+    """BIP174 combiner on the reference maps: a's records, plus b's records under keys a does not have"""
+    def merge(ma, mb):
+        have = {k for k, _ in ma}
+        return list(ma) + [(k, v) for k, v in mb if k not in have]
+
+    return {"global": merge(a["global"], b["global"]), "ins": [merge(x, y) for x, y in zip(a["ins"], b["ins"])], "outs": [merge(x, y) for x, y in zip(a["outs"], b["outs"])], "tx": copy.deepcopy(a["tx"])}
+
+
+def gen_histories(tier, seed):
+    cases = []
+    for m, n in wallets(tier, [(1, 2)], [(1, 2), (2, 3)]):
+        for st in ("p2sh", "p2wsh"):
+            for v in HIST_VARIANTS:
+                for h in HISTORIES:
+                    if v == "honest" and h != "describe-twice":
+                        continue
+                    cases.append({"cfg": cfg_of(st, m, n), "variant": v, "history": h})
+    return cases
+
+
+def same_result(a, b):
+    if isinstance(a, Rejected) or isinstance(b, Rejected):
+        return isinstance(a, Rejected) and isinstance(b, Rejected)
+    keys = ("tx_fee_sats", "total_input_sats", "total_output_sats", "spend_sats", "change_sats", "change_addr", "spend_addr", "is_batch_tx")
+    return all(a.get(k) == b.get(k) for k in keys) and [o.get("is_change") for o in a["outputs_desc"]] == [o.get("is_change") for o in b["outputs_desc"]]
+
+
+def run_histories(case):
+    from buidl.psbt import PSBT
+
+    res = Res()
+    cfg, var, hist = case["cfg"], case["variant"], case["history"]
+    st, n = cfg["stype"], cfg["n"]
+    vc = {"engine": "histories", "case": case}
+    ph = attempt(base, cfg)
+    if isinstance(ph, Rejected):
+        res.violation(f"C11/histories/honest-build-fails/{st}", vc, repr(ph), "PSBT", f"{lab(cfg)}: the library cannot build the honest PSBT")
+        return res
+    pv = hist_variant(cfg, var)
+    hdmap = hd_map(n)
+    parse = lambda p: attempt(lambda: PSBT.parse(BytesIO(psbtref.serialize(p)), network="mainnet"))
+    desc = lambda o: attempt(lambda: o.describe_basic_multisig(hdpubkey_map=hdmap))
+    label = f"{lab(cfg)}: {hist} with variant {var}"
+    res.states += 1
+    if hist == "describe-twice":
+        o = parse(pv)
+        if isinstance(o, Rejected):
+            judge(res, "histories", st, vc, label, pv, cfg, o, all_problems(pv, cfg), key=(lab(cfg), var, hist))
+            return res
+        d1 = desc(o)
+        d2 = desc(o)
+        d3 = desc(o)
+        res.transitions += 3
+        if var == "honest" and isinstance(d1, Rejected):
+            res.violation(f"C11/histories/honest-rejected/{st}", vc, repr(d1), "summary", f"{label}: honest PSBT is not summarised")
+            return res
+        if not (same_result(d1, d2) and same_result(d2, d3)):
+            res.violation(f"C11/histories/describe-not-repeatable/{st}", vc, [repr(x)[:80] for x in (d1, d2, d3)], "the same answer every time", f"{label}: describing the same object again gives another answer")
+            return res
+        judge(res, "histories", st, vc, label, pv, cfg, d1, all_problems(pv, cfg), want_flags=[change_index(cfg)] if var == "honest" else None, key=(lab(cfg), var, hist))
+        return res
+    first, second = (ph, pv) if "honest.combine" in hist else (pv, ph)
+    a, b = parse(first), parse(second)
+    if isinstance(a, Rejected) or isinstance(b, Rejected):
+        res.ok("variant rejected when parsed", nontrivial=("histories", lab(cfg), var, hist))
+        return res
+    if hist.startswith("describe-"):
+        desc(a)
+        res.transitions += 1
+    c = attempt(a.combine, b)
+    res.transitions += 1
+    merged = ref_combine(first, second)
+    if isinstance(c, Rejected):
+        res.ok("combine rejected", nontrivial=("histories", lab(cfg), var, hist))
+        return res
+    d = desc(a)
+    res.transitions += 1
+    judge(res, "histories", st, vc, label, merged, cfg, d, all_problems(merged, cfg), key=(lab(cfg), var, hist))
+    return res
+
+
+
 def engines(tier, seed):
+    W = "1-of-2 (thorough: also 2-of-3)"
     return [
         Engine(
             "review",
@@ -615,5 +1532,61 @@ def engines(tier, seed):
             kind="E1",
             chunk=6,
             rule="honest PSBTs for wallets {2-of-3, 1-of-2} (thorough {1-of-2, 2-of-2, 2-of-3, 3-of-5}) x {P2SH via create_multisig_psbt, P2WSH via PSBT.create+lookups} x 1..2 inputs x {spend, spend+change, batch+change}, summarised with an explicit cosigner map and with the PSBT's own global xpubs; every single tampering of a ~24-entry byte-level catalogue (thorough: all pairs for two wallets); oracle: raise, or arithmetic identities + every output labelled change satisfies the independent rule recomputed with a reference BIP32; tamperings that contradict the transaction must raise",
-        )
+        ),
+        Engine(
+            "shapes",
+            gen_shapes,
+            run_shapes,
+            kind="E1",
+            rule="the script attached to the change output of an honest 2-of-3 PSBT (thorough: also 1-of-2, 1-of-1), its derivation records kept and the scriptPubKey recomputed from it, for (inputs, change output) kinds {p2sh->p2sh, p2wsh->p2wsh} and - quick: shells, encodings and deletions only - {p2sh->p2wsh, p2wsh->p2sh-p2wsh} (thorough: all 2x3, everything): every replacement of one token of OP_m k1..kn OP_n OP_CHECKMULTISIG and every insertion at every position from a 17-token alphabet (small numbers, OP_n+1, OP_16, OP_1NEGATE, NOP, DROP, 2DROP, RETURN, CHECKSIG, CHECKMULTISIG(VERIFY), an attacker key, a repeated cosigner key, n as a 1-byte push), every deletion, 20 shells that keep OP_m <cosigner keys> .. OP_CHECKMULTISIG around an attacker script or extend / wrap the honest script, 8 encodings (PUSHDATA keys, non-minimal numbers, truncated trailing push, reversed key order); thorough: all pairs of the 80 key-preserving single mutations over an 8-token alphabet; oracle: error, or arithmetic identities and every output labelled change is, per the reference script parser and reference BIP32, exactly OP_m <n cosigner keys> OP_n OP_CHECKMULTISIG committed to by the scriptPubKey",
+        ),
+        Engine(
+            "spkforms",
+            gen_spkforms,
+            run_spkforms,
+            kind="E1",
+            rule="honest change script and derivations attached as {redeem, witness, redeem 0020sha256 + witness, nothing, script without derivations} to a change output whose scriptPubKey ranges over OP_0..OP_16 followed by sha256(script) / hash160(script) / hash160(0020sha256(script)) (51 forms incl. the honest P2WSH, P2WPKH-shaped and P2TR-shaped ones) and 27 other forms carrying one of the three hashes as an element (P2SH with EQUALVERIFY / trailing op / PUSHDATA1, P2PKH-shaped, OP_RETURN, SHA256/HASH256/RIPEMD160 <h> EQUAL, bare multisig, empty), P2SH and P2WSH inputs, 2-of-3 (thorough: also 1-of-2); oracle: an attached script the scriptPubKey does not commit to (P2SH / P2WSH / P2SH-P2WSH, byte-exact) must be an error; otherwise arithmetic identities and labelled change satisfies the independent rule",
+        ),
+        Engine(
+            "utxo",
+            gen_utxo,
+            run_utxo,
+            kind="E1",
+            rule="input 0 of an honest " + W + " PSBT (P2SH, P2WSH) carries UTXO records {non-witness, witness, both in either order, none} x witness record {same, amount +2M, amount -2M, foreign scriptPubKey} x previous transaction {same, amount changed, other transaction} x {honest, foreign redeem/witness script, derivation for a key not in the script, wrong path, foreign fingerprint}; the missing record is rebuilt from the one the library produced; oracle (reference parser + reference BIP32): error required when no record, txid mismatch, the two records disagree, the attached script does not hash to the spent scriptPubKey, a derivation key is not in the script or does not derive, or a legacy P2SH amount is claimed by an altered witness-only record; otherwise fee = inputs - outputs computed from the txid-verified previous transaction when present, and the change rule",
+        ),
+        Engine(
+            "paths",
+            gen_paths,
+            run_paths,
+            kind="E1",
+            rule="derivation records of one cosigner (thorough: one, all) on {the change output, input 0} of an honest " + W + " PSBT state one of 15 paths (wrong / unhardened purpose, wrong account, both, prefix dropped, prefix only, one component, empty, hardened branch / index, extra level, index off by one; and three re-keyed consistent ones: extra level, the xpub's own key, another branch), summarised with the cosigner map and with the PSBT's own global xpubs; variants whose changed component is not encoded in a bare xpub are skipped in map mode; oracle: input derivations that do not lead from the cosigner xpub at m/45'/0 to the key must be an error, an output is labelled change only if every script key derives from its cosigner's xpub at the stated path below m/45'/0",
+        ),
+        Engine(
+            "xpubs",
+            gen_xpubs,
+            run_xpubs,
+            kind="E1",
+            rule="the whole single-tampering catalogue of engine review summarised with the PSBT's own global xpubs instead of the map (quick: 1-of-2 P2SH and P2WSH spend+change; thorough: every 1-of-2 and 2-of-3 configuration of review), same oracle; plus 8 tamperings of the global xpub records (cosigner xpub swapped to an attacker's under the same fingerprint, attacker xpub added under a cosigner fingerprint first / last, one / all dropped, path component / fingerprint changed, path longer than depth) in both modes; oracle: error or a faithful summary w.r.t. the honest cosigner xpubs",
+        ),
+        Engine(
+            "positions",
+            gen_positions,
+            run_review,
+            kind="E1",
+            rule="2-input batch+change PSBTs (" + W + ", P2SH and P2WSH): the honest PSBT with its change output moved to index 2 (P2SH) / 0 (P2WSH) (thorough: 0 and 2 for both) must be summarised with exactly that output labelled; every out-* tampering of the catalogue applied at that change index, every in-* tampering applied to input 1; oracle of engine review",
+        ),
+        Engine(
+            "amounts",
+            gen_amounts,
+            run_amounts,
+            kind="E1",
+            rule="honest 1-of-2 PSBTs (P2SH with rebuilt previous transaction and outpoint, P2WSH; thorough: 1 and 2 inputs) with every (input, spend, change) amount triple over {0, 1, 2^32, 21e14} x {0, 2^32} x {0, 1, 2^32, 21e14} (thorough: the cube of {0, 1, 546, 2^32-1, 2^32, 21e14, 2^63-1, 2^63, 2^64-1}); oracle: fee = inputs - outputs, spend + change + fee = inputs, spend / change / input totals equal the amounts in the PSBT, and when 0 < inputs <= 21e14 and outputs <= inputs a summary with exactly the change output labelled is required; plus two outputs to the change script with every amount pair: error, or the sums hold and change_sats is the sum of the labelled outputs",
+        ),
+        Engine(
+            "histories",
+            gen_histories,
+            run_histories,
+            kind="E2",
+            rule="operation histories on PSBT objects (" + W + ", P2SH and P2WSH) over 12 variants (honest; other UTXO record added honest / with amount +2M; UTXO kind swapped + foreign script; 8 catalogue tamperings that keep the transaction): describe three times on one object (same answer each time, judged like a fresh one); honest.combine(variant) then describe; variant.combine(honest) then describe; describe, combine, describe; oracle: BIP174 combiner on the reference maps (own records win, missing ones are taken over), then error required if the merged records contradict the transaction (as in engine utxo, plus attached output script not committed to), else arithmetic identities and the change rule on the merged records",
+        ),
     ]
